@@ -33,7 +33,7 @@ def obligations(tier):
     obs.append(Ob('O9.4-witness-written-day', 'fn', 'harness.witness:api_witness', slices=[{'w': 'F50'}], timeout=t, finding='F50', descr='API witness of the repaired F50 (written-out day: past candidate in the next year): a reappearance is a violation'))
     from props import _corpus
     import json as _json
-    slices, counts, _ = _corpus.slices(tier, 'pair', tag='pair', quick_step=5, quick_cap=12)
+    slices, counts, _ = _corpus.slices(tier, 'pair', tag='pair', quick_cap=8)
     obs.append(Ob('O9.4-corpus-pairs', 'sx', 'harness.apidt:h_wellformed', twin=None, slices=slices, timeout=90 if tier == 'quick' else 240,
                   descr='API level, symbolic reference datetime, every culture: on the DateTimeModel Specs inputs that yield two candidates under an open TIMEX XXXX-MM-DD / XXXX-WXX-d (inputs only; expected outputs not consulted), '
                         'for EVERY reference datetime the two values are the latest occurrence before the reference day and the earliest on or after it (same month/day in consecutive years, neighbouring leap years for 29 February, '
